@@ -82,6 +82,9 @@ func (c *Ctx) Discharge(rule, construct string, pos token.Pos, how string) {
 	c.obligations++
 	c.discharged++
 	c.instances[rule]++
+	if d := os.Getenv("FV_DUMP"); d != "" && strings.Contains(rule+"|"+construct, d) {
+		fmt.Fprintf(os.Stderr, "DISCHARGED %s %s: %s\n", rule, construct, how)
+	}
 	if c.sampleCount[rule] < 4 {
 		c.sampleCount[rule]++
 		c.samples = append(c.samples, Obligation{Rule: rule, Construct: construct, Where: c.Prog.Loc(pos), How: how})
